@@ -26,7 +26,7 @@ func init() {
 			{Name: "retain", Weight: 4, Bubble: true, Run: c06Retain},
 			{Name: "sm-error-reports", Weight: 1, Bubble: true, Run: func(e *Env) { smaRun(e, "C06") }},
 		},
-		MustProbes: []string{"pooled-then-pooled", "retained-across-connection", "retained-across-goroutine", "boundary-1025-1044", "retained-forwarded", "unpadded-tail", "error-report-message-retained"},
+		MustProbes: []string{"pooled-then-pooled", "retained-across-connection", "retained-across-goroutine", "boundary-1025-1044", "retained-forwarded", "unpadded-tail", "error-report-message-retained", "deep-nesting", "wrong-size-fixed-width"},
 	})
 }
 
@@ -93,6 +93,23 @@ func genC06Msg(t *Tape, e *Env, idx int, fill byte) []byte {
 		default:
 			return RefAVP{Code: avpSimOctets, Data: fb(5+int(salt)%30, salt)}
 		}
+	}
+	if t.Chance(1, 6) {
+		// a grouped AVP nested deeper than any sensible limit, with a view-prone leaf at the bottom
+		depth := t.Range(2, 12)
+		g := leaf(t.Draw(8), 77)
+		for d := 0; d < depth; d++ {
+			g = RefAVP{Code: avpSimGroup, Group: []RefAVP{g}}
+		}
+		m.AVPs = append(m.AVPs, g)
+		if depth >= 9 {
+			e.Probe("deep-nesting")
+		}
+	}
+	if t.Chance(1, 6) {
+		// a fixed-width type carrying a payload of another size (decoded leniently)
+		m.AVPs = append(m.AVPs, RefAVP{Code: avpSimU32, Data: fb(1+t.Draw(3), 31)})
+		e.Probe("wrong-size-fixed-width")
 	}
 	n := t.Range(1, 6)
 	for i := 0; i < n; i++ {
